@@ -256,7 +256,7 @@ func propC13(c *Ctx) {
 func propC12(c *Ctx) {
 	g := NewGen(c.seed)
 	s := c.suite("decode-encode-decode", "oracle",
-		"mutations of valid message encodings (reserved bits, flags, lengths, type codes, nested attribute encodings) and valid encodings themselves: whenever Decode accepts and Encode succeeds, Decode(Encode(Decode(b))) = Decode(b) and a further Encode reproduces the bytes; canonical encodings must re-encode byte-identically; non-trivial = the decoder accepted the input and it holds >= 1 payload; distinct by input")
+		"mutations of valid message encodings (reserved bits, flags, lengths, type codes, nested attribute encodings), valid encodings themselves, and every implemented payload type with every body length 0..12: whenever Decode accepts and Encode succeeds, Decode(Encode(Decode(b))) = Decode(b) and a further Encode reproduces the bytes; canonical encodings must re-encode byte-identically; non-trivial = the decoder accepted the input and it holds >= 1 payload; distinct by input")
 	s2 := c.suite("eap-unmarshal-marshal-unmarshal", "oracle",
 		"same for EAP packets: Unmarshal, Marshal, Unmarshal on valid and mutated EAP encodings (all methods, AKA' attributes in any wire order incl. unknown types); non-trivial = accepted input with method data")
 	var corr []corrCase
@@ -276,6 +276,29 @@ func propC12(c *Ctx) {
 			continue
 		}
 		c.c12Msg(s, in, canonical, tag, i, &corr)
+	}
+	// every implemented payload type with every small body length 0..12 (zero, 0xff and random fillings),
+	// alone and followed by a second payload: degenerate bodies are where decode and encode disagree
+	for t := 33; t <= 48; t++ {
+		for l := 0; l <= 12; l++ {
+			for k := 0; k < c.n(4, 40); k++ {
+				var body []byte
+				switch k {
+				case 0:
+					body = make([]byte, l)
+				case 1:
+					body = bytes.Repeat([]byte{0xff}, l)
+				default:
+					body = g.keyBytesRandom(l)
+				}
+				els := []chainElem{{typ: uint8(t), body: body}}
+				if k%2 == 1 {
+					els = append(els, chainElem{typ: 40, body: g.bytes(3)})
+				}
+				in := encodeHeaderRef(g.header(), uint8(t), encodeChainRef(els))
+				c.c12Msg(s, in, false, "small-body", n+t*1000+l*50+k, &corr)
+			}
+		}
 	}
 	for i := 0; i < c.n(6000, 300000); i++ {
 		var in []byte
